@@ -2,6 +2,7 @@ import TrackVerif.Common.Proto
 import TrackVerif.Driver.Dec
 import TrackVerif.TA.Driver
 import TrackVerif.Conv.Driver
+import TrackVerif.GP.Driver
 /-
   Line-protocol driver.  One case per input line:
       AREA op arg… => impl-output-tokens…
@@ -29,6 +30,7 @@ def dispatch (line : String) : String :=
     | "DEC" => Driver.Dec.handle args impl
     | "TA" => TA.Driver.handle args impl
     | "CV" => Conv.Driver.handle args impl
+    | "GP" => GP.Driver.handle args impl
     | _ => "BAD"
 
 partial def loop (h : IO.FS.Stream) (out : IO.FS.Stream) : IO Unit := do
